@@ -1,6 +1,7 @@
 package vk
 
 import (
+	"github.com/relab/hotstuff/security/crypto"
 	"fmt"
 
 	"github.com/relab/hotstuff"
@@ -111,6 +112,41 @@ func c20ThresholdCell(r *vbase.Result, scheme string, cache uint, n int) {
 				map[string]any{"scheme": scheme, "cache": cache, "n": n, "k": q - 1, "type": "QC", "padded": true})
 		} else {
 			r.Obs("rejected", 1)
+		}
+	}
+	// proposals justified by an aggregate QC (VerifyAnyQC): the threshold applies to the block's own QC as well - a copy of
+	// the aggregate's high QC (same view, hash and signature bytes) that names a single replica is below the quorum
+	if q >= 2 {
+		signers := IDs(n)[:q]
+		if hq, _, err := w.HonestQC(blk, signers); err == nil {
+			tms := w.HonestTimeouts(5, signers, func(hotstuff.ID) hotstuff.QuorumCert { return hq }, true)
+			if agg, err := w.M(1).Auth.CreateAggregateQC(5, tms); err == nil {
+				raw := hq.Signature().ToBytes()
+				var one hotstuff.QuorumSignature
+				switch scheme {
+				case crypto.NameECDSA:
+					one = crypto.NewMulti(crypto.RestoreECDSASignature(raw, signers[0]))
+				case crypto.NameEDDSA:
+					one = crypto.NewMulti(crypto.RestoreEDDSASignature(raw, signers[0]))
+				default:
+					var bf crypto.Bitfield
+					bf.Add(signers[0])
+					one, _ = crypto.RestoreBLS12AggregateSignature(raw, bf)
+				}
+				if one != nil {
+					pb := hotstuff.NewBlock(blk.Hash(), hotstuff.NewQuorumCert(one, blk.View(), blk.Hash()), Batch(2, 1, 1), 6, 1)
+					err := verifier.Auth.VerifyAnyQC(&hotstuff.ProposeMsg{ID: 1, Block: pb, AggregateQC: &agg})
+					r.Eval(true, fmt.Sprintf("%s/%d/%d/AnyQC/1", scheme, cache, n))
+					r.Obs("verifications", 1)
+					if err == nil {
+						r.Violate(vbase.Sig("threshold", "type", "AnyQC", "kind", "accepts-below-quorum", "scheme", scheme),
+							fmt.Sprintf("VerifyAnyQC accepted a proposal whose block QC names 1 replica of n=%d (reference q=%d, scheme %s, cache %d): the bytes are those of the aggregate's high QC", n, q, scheme, cache),
+							map[string]any{"scheme": scheme, "cache": cache, "n": n, "k": 1, "type": "AnyQC"})
+					} else {
+						r.Obs("rejected", 1)
+					}
+				}
+			}
 		}
 	}
 	ks := []int{q - 1, q, n}
